@@ -34,7 +34,7 @@ RULE = (
     "recording wrapper around replacement/single_pass/dynamic/proportion x None/by_label x smoothing / built-in string / "
     "degenerate, with 0-3 planned faults (forced draws, interference) and reseeds. Non-trivial: every run; distinct = distinct "
     "abstract trace signatures."
-    "Later rounds added: list/tuple support points, class sizes 41-130 and 280-420, float32/unsigned dtypes, re-entrant and raising samplers (exception types), "
+     " Later rounds added: list/tuple support points, class sizes 41-130 and 280-420, float32/unsigned dtypes, re-entrant and raising samplers (exception types), "
     "user-subclass sources with their own bootstrap_sample, unhashable samplers, callable sampler x stratification flag, resample-count check, state-leak probes, alpha up to 0.95."
 )
 COMPONENTS = {
